@@ -182,14 +182,14 @@ func (c *compiler) evalAssignExpression(node *ast.AssignExpression) (interface{}
 }
 
 func (c *compiler) evalUserFunction(node *userFunction, args []ast.Expression) (interface{}, error) {
-	if len(args) < len(node.Parameters) {
-		return nil, fmt.Errorf("too few arguments (%d for %d)", len(args), len(node.Parameters))
+	if len(args) < len(node.params) {
+		return nil, fmt.Errorf("too few arguments (%d for %d)", len(args), len(node.params))
 	}
 
 	// the arguments belong to the caller: evaluate all of them before any
 	// parameter is bound
-	vals := make([]interface{}, len(node.Parameters))
-	for i := range node.Parameters {
+	vals := make([]interface{}, len(node.params))
+	for i := range node.params {
 		v, err := c.evalExpression(args[i])
 		if err != nil {
 			return nil, err
@@ -202,11 +202,11 @@ func (c *compiler) evalUserFunction(node *userFunction, args []ast.Expression) (
 	defer func() { c.ctx = octx }()
 
 	c.ctx = c.ctx.New()
-	for i, p := range node.Parameters {
+	for i, p := range node.params {
 		c.ctx.Set(p.Value, vals[i])
 	}
 
-	res, err := c.evalBlockStatement(node.Block)
+	res, err := c.evalBlockStatement(node.block)
 	if err != nil {
 		return nil, err
 	}
@@ -240,7 +240,7 @@ func returnValue(ro returnObject) interface{} {
 func (c *compiler) evalFunctionLiteral(node *ast.FunctionLiteral) (interface{}, error) {
 	params := node.Parameters
 	block := node.Block
-	return &userFunction{Parameters: params, Block: block}, nil
+	return &userFunction{params: params, block: block}, nil
 }
 
 func (c *compiler) evalPrefixExpression(node *ast.PrefixExpression) (interface{}, error) {
